@@ -6,10 +6,12 @@ set -u
 SRC=$(realpath $1); ID=$2; DST=/verif/seeded/$ID
 export GOFLAGS=-mod=mod GOPROXY=off GOSUMDB=off GOTOOLCHAIN=local; unset GOWORK
 PROP=$(python3 -c "import json;print(json.load(open('$SRC/meta.json'))['property'])")
+if [ "${CONFIRMED:-0}" != 1 ]; then   # keep_round2.sh has done the confirmation already (in parallel)
 OUT=$(SUITE=1 /verif/selftest/try_seed.sh $SRC 2>&1); echo "$OUT" | cut -c1-200
 echo "$OUT" | grep -A1 "demo on unpatched" | grep -q "exit=0" || { echo "REJECT: demo does not pass on the unpatched tree"; exit 1; }
 echo "$OUT" | grep -A1 "demo on patched" | grep -q "exit=[1-9]" || { echo "REJECT: demo does not fail on the patched tree"; exit 1; }
 echo "$OUT" | grep -A1 "existing suite" | grep -q "exit=0" || { echo "REJECT: existing suite fails with the patch"; exit 1; }
+fi
 # the formal run: against /repo itself
 git -C /repo diff --quiet || { echo "/repo not clean"; exit 2; }
 git -C /repo apply $SRC/patch.diff || (cd /repo && patch -p1 -s --no-backup-if-mismatch < $SRC/patch.diff) || { echo "apply failed"; git -C /repo checkout -- .; exit 2; }
